@@ -96,8 +96,16 @@ func checkC10(c *Ctx) {
 				for _, b := range rf.Blocks {
 					for _, in := range b.Instrs {
 						if st, isSt := in.(*ssa.Store); isSt {
-							if fa, isFA := st.Addr.(*ssa.FieldAddr); isFA && fieldName(fa.X.Type(), fa.Field) == "cosetTable" && isNilConst(st.Val) {
-								cleared = true
+							// a coset table of the receiver (a field, or an entry of an array of tables) is
+							// set to its zero value
+							addr := st.Addr
+							if ia, isIA := addr.(*ssa.IndexAddr); isIA {
+								addr = ia.X
+							}
+							if fa, isFA := addr.(*ssa.FieldAddr); isFA && strings.HasPrefix(strings.ToLower(fieldName(fa.X.Type(), fa.Field)), "coset") && isTableField(derefType(fa.Type())) {
+								if k, isC := st.Val.(*ssa.Const); isC && k.Value == nil {
+									cleared = true
+								}
 							}
 						}
 					}
@@ -111,7 +119,20 @@ func checkC10(c *Ctx) {
 			if pt := p.Func(pk, "Domain", "preComputeTwiddles"); pt != nil {
 				ms := sharedEffects(p).Must(pt)
 				var missing []string
-				for _, f := range []string{"twiddles", "twiddlesInv", "cosetTable", "cosetTableInv"} {
+				// the tables: the unexported fields of the domain that hold vectors of elements (by type,
+				// not by name: two tables merged into an array of tables are still tables)
+				var tables []string
+				if st, isSt := derefType(pt.Params[0].Type()).Underlying().(*types.Struct); isSt {
+					for i := 0; i < st.NumFields(); i++ {
+						if f := st.Field(i); !f.Exported() && isTableField(f.Type()) {
+							tables = append(tables, f.Name())
+						}
+					}
+				}
+				if len(tables) < 2 {
+					missing = append(missing, "(fewer than two table fields found in Domain)")
+				}
+				for _, f := range tables {
 					if !covered(pt, ms.MustAll, Loc{0, "." + f}, 0) {
 						missing = append(missing, f)
 					}
@@ -257,4 +278,25 @@ func checkSplitJoin10(c *Ctx, p *Program, fn *ssa.Function) {
 		}
 		c.Ob("C10.join", pkg, fk, "done-channel-closed-on-every-exit", p.Pos(fn.Pos()), deferred, fk+": the done channel is not closed by a deferred close: an early return leaves the parent waiting forever")
 	}
+}
+
+// isTableField: a slice, a slice of slices, or a small array of those, of field elements.
+func isTableField(t types.Type) bool {
+	for d := 0; d < 4; d++ {
+		switch u := t.Underlying().(type) {
+		case *types.Slice:
+			if n, ok := u.Elem().(*types.Named); ok && n.Obj().Name() == "Element" {
+				return true
+			}
+			t = u.Elem()
+		case *types.Array:
+			if d > 0 {
+				return false
+			}
+			t = u.Elem()
+		default:
+			return false
+		}
+	}
+	return false
 }
